@@ -33,7 +33,7 @@ COMMON_T1 = [("thread.c", f) for f in [
 
 def scenario_params(rng):
     nes = 1 + rng.below(3)
-    return [nes, 4 + rng.below(10), 2 + rng.below(4), rng.below(3), rng.below(4), rng.below(3), rng.below(2)]
+    return [nes, 4 + rng.below(10), 2 + rng.below(4), rng.below(3), rng.below(5), rng.below(3), rng.below(2)]
 
 
 def validate(lg, params):
